@@ -137,6 +137,9 @@ mod probe;
 mod runtime;
 #[cfg(test)]
 mod testing;
+#[cfg(feature = "verif-hooks")]
+#[doc(hidden)]
+pub mod verif;
 
 use crate::{
     broadcast::Broadcasts,
@@ -201,6 +204,9 @@ pub struct Foca<T: Identity, C, RNG, B: BroadcastHandler<T>> {
 
     broadcast_handler: B,
     custom_broadcasts: Broadcasts<B::Key>,
+
+    #[cfg(feature = "verif-hooks")]
+    verif_events: Vec<verif::Event>,
 }
 
 impl<T, C, RNG> Foca<T, C, RNG, NoCustomBroadcast>
@@ -270,6 +276,8 @@ where
             send_buf: Vec::with_capacity(max_bytes),
             custom_broadcasts: Broadcasts::new(),
             broadcast_handler,
+            #[cfg(feature = "verif-hooks")]
+            verif_events: Vec::new(),
         }
     }
 
@@ -335,6 +343,9 @@ where
             if !previous_is_down {
                 let addr = Addr(previous_id.addr());
                 let data = self.serialize_member(Member::down(previous_id))?;
+                #[cfg(feature = "verif-hooks")]
+                self.verif_events
+                    .push(verif::Event::UpdateQueued(data.clone()));
                 self.updates
                     .add_or_replace(addr, data, self.config.max_transmissions.get().into());
             }
@@ -573,6 +584,9 @@ where
     pub fn leave_cluster(&mut self, mut runtime: impl Runtime<T>) -> Result<()> {
         let addr = Addr(self.identity().addr());
         let data = self.serialize_member(Member::down(self.identity().clone()))?;
+        #[cfg(feature = "verif-hooks")]
+        self.verif_events
+            .push(verif::Event::UpdateQueued(data.clone()));
         self.updates
             .add_or_replace(addr, data, self.config.max_transmissions.get().into());
 
@@ -603,6 +617,9 @@ where
             .receive_item(data, None)
             .map_err(|e| Error::CustomBroadcast(Box::new(e)))?
         {
+            #[cfg(feature = "verif-hooks")]
+            self.verif_events
+                .push(verif::Event::CustomQueued(data.to_vec()));
             self.custom_broadcasts.add_or_replace(
                 key,
                 data.to_vec(),
@@ -1276,6 +1293,9 @@ where
             if do_broadcast {
                 let addr = Addr(id.addr());
                 let data = self.serialize_member(update)?;
+                #[cfg(feature = "verif-hooks")]
+                self.verif_events
+                    .push(verif::Event::UpdateQueued(data.clone()));
                 self.updates
                     .add_or_replace(addr, data, self.config.max_transmissions.get().into());
             }
@@ -1331,6 +1351,9 @@ where
                 #[cfg(feature = "tracing")]
                 tracing::trace!(len = pkt_len, "received broadcast item");
 
+                #[cfg(feature = "verif-hooks")]
+                self.verif_events
+                    .push(verif::Event::CustomQueued(pkt.to_vec()));
                 self.custom_broadcasts.add_or_replace(
                     key,
                     pkt.to_vec(),
@@ -1532,6 +1555,8 @@ where
         #[cfg(feature = "tracing")]
         tracing::trace!("Message sent");
 
+        #[cfg(feature = "verif-hooks")]
+        self.verif_events.push(verif::Event::Sent);
         runtime.send_to(dst, &data);
         #[cfg(feature = "unstable-notifications")]
         runtime.notify(Notification::DataSent(&header));
